@@ -6,8 +6,11 @@
    This discharges the hypothesis SRj of RadialTable.case_value. *)
 From Coq Require Import Reals ZArith Lra Lia.
 From Coquelicot Require Import Coquelicot.
-From LV Require Import Bessel.BesselSpec.
+From LV Require Import Bessel.BesselSpec Bessel.BesselDeriv.
 Local Open Scope R_scope.
+
+Lemma is_derive_ext_val (f : R -> R) r d d' : is_derive f r d -> d = d' -> is_derive f r d'.
+Proof. intros H E. now rewrite <- E. Qed.
 
 Section RadialRec.
   Variables zeta a b A B : R.
@@ -17,8 +20,20 @@ Section RadialRec.
   Definition F (i j : nat) (k : Z) (r : R) : R :=
     powerRZ r k * env r * M i (2 * (a * A) * r) * M j (2 * (b * B) * r).
 
+  (* the lower end of the integral: any proper filter on the non-negative reals (at_point 0, at_right 0) *)
+  Variable Fa : (R -> Prop) -> Prop.
+  Context {FFa : ProperFilter Fa}.
+  Hypothesis HFa : Fa (fun u => 0 <= u).
+
   Variable T : nat -> nat -> Z -> R.
-  Hypothesis HT : forall i j k, is_RInt_gen (F i j k) (at_point 0) (Rbar_locally p_infty) (T i j k).
+  Hypothesis HT : forall i j k, is_RInt_gen (F i j k) Fa (Rbar_locally p_infty) (T i j k).
+
+  (* eventually (u, v) in Fa x +inf : every point strictly between u and v is positive *)
+  Lemma between_pos : filter_prod Fa (Rbar_locally p_infty) (fun ab => forall r, Rmin (fst ab) (snd ab) < r < Rmax (fst ab) (snd ab) -> 0 < r).
+  Proof.
+    exists (fun u => 0 <= u) (fun v => 0 < v); [exact HFa | exists 0; intros v Hv; exact Hv |].
+    intros u v Hu Hv r. cbn [fst snd]. intros [Hr _]. unfold Rmin in Hr. destruct (Rle_dec u v); lra.
+  Qed.
 
   Lemma F_rec i j k r : 0 < r ->
     F i (S (S j)) k r = F i j k r - (2 * INR j + 3) / (2 * (b * B)) * F i (S j) (k - 1) r.
@@ -34,16 +49,185 @@ Section RadialRec.
     T i (S (S j)) k = T i j k - (2 * INR j + 3) / (2 * (b * B)) * T i (S j) (k - 1).
   Proof.
     pose proof (HT i (S (S j)) k) as H2.
-    assert (is_RInt_gen (F i (S (S j)) k) (at_point 0) (Rbar_locally p_infty)
+    assert (is_RInt_gen (F i (S (S j)) k) Fa (Rbar_locally p_infty)
               (T i j k - (2 * INR j + 3) / (2 * (b * B)) * T i (S j) (k - 1))) as H3.
     { apply is_RInt_gen_ext with (f := fun r => minus (F i j k r) (scal ((2 * INR j + 3) / (2 * (b * B))) (F i (S j) (k - 1) r))).
-      - exists (fun u => u = 0) (fun v => 0 < v).
-        + reflexivity.
-        + exists 0. intros v Hv. exact Hv.
-        + intros u v Hu Hv r. cbn [fst snd]. subst u. rewrite Rmin_left, Rmax_right by lra. intros [Hr _].
-          rewrite F_rec by assumption. reflexivity.
+      - pose proof between_pos as BP. revert BP. apply filter_imp. intros ab Hab r Hr. rewrite F_rec by (apply Hab; exact Hr). reflexivity.
       - apply (is_RInt_gen_minus (V := R_CompleteNormedModule)); [apply HT|].
         apply (is_RInt_gen_scal (V := R_CompleteNormedModule)). apply HT. }
     rewrite <- (is_RInt_gen_unique _ _ H2). rewrite <- (is_RInt_gen_unique _ _ H3). reflexivity.
+  Qed.
+
+  (* ---------------------------------------------------------------------------------------------------------------------
+     The i-recurrence, by one integration by parts: with H(r) = r^k env(r) M_i(2xr) M_{j+1}(2yr),
+       H' = (k + i - j - 2) F(i,j+1,k-1) - 2p F(i,j+1,k+1) + 2x F(i+1,j+1,k) + 2y F(i,j,k)
+     (derivative rules of M_l, Bessel/BesselDeriv.v), so that, when H vanishes at both ends of (0, inf),
+       2x T(i+1,j+1,k) = (2 + j - i - k) T(i,j+1,k-1) + 2p T(i,j+1,k+1) - 2y T(i,j,k),
+     which is hypothesis SRi of RadialTable.case_value (there with i, j shifted by one and divided by 2x).
+     --------------------------------------------------------------------------------------------------------------------- *)
+  Hypothesis Hx : 0 < a * A.
+  Let x := a * A. Let y := b * B. Let p := zeta + a + b.
+  (* the function whose derivative is the combination of integrands *)
+  Definition H (i j : nat) (k : Z) (r : R) : R := powerRZ r k * env r * M i (2 * (a * A) * r) * M (S j) (2 * (b * B) * r).
+
+  Lemma env_derive r : is_derive env r ((-2 * p * r + 2 * x + 2 * y) * env r).
+  Proof. unfold env, p, x, y. auto_derive; [exact I|]. unfold Rminus. ring. Qed.
+
+  Lemma powerRZ_derive k r : 0 < r -> is_derive (fun t => powerRZ t k) r (IZR k * powerRZ r (k - 1)).
+  Proof.
+    intros Hr. destruct k as [|n|n].
+    - simpl. replace (0 * _) with 0 by ring. apply (is_derive_const (K := R_AbsRing) (V := R_NormedModule)).
+    - cbn [powerRZ]. replace (Z.pos n - 1)%Z with (Z.of_nat (Pos.to_nat n - 1)) by lia.
+      rewrite <- pow_powerRZ. replace (IZR (Z.pos n)) with (INR (Pos.to_nat n)) by (rewrite INR_IZR_INZ; f_equal; lia).
+      auto_derive; [exact I|]. rewrite Rmult_1_l. replace (Init.Nat.pred (Pos.to_nat n)) with (Pos.to_nat n - 1)%nat by lia. ring.
+    - cbn [powerRZ].
+      assert (r ^ Pos.to_nat n <> 0) by (apply pow_nonzero; lra).
+      auto_derive; [assumption|].
+      replace (Z.neg n - 1)%Z with (Z.opp (Z.of_nat (S (Pos.to_nat n)))) by lia.
+      rewrite powerRZ_neg', <- pow_powerRZ.
+      replace (IZR (Z.neg n)) with (- INR (Pos.to_nat n)) by (rewrite INR_IZR_INZ, <- opp_IZR; f_equal; lia).
+      destruct (Pos.to_nat n) as [|m] eqn:E; [lia|]. cbn [Init.Nat.pred pow]. rewrite S_INR.
+      cbn [pow] in H0. field. repeat split; try lra. intros Z0. apply H0. rewrite Z0. ring.
+  Qed.
+
+  Lemma is_derive_mult4 (f1 f2 f3 f4 : R -> R) r d1 d2 d3 d4 :
+    is_derive f1 r d1 -> is_derive f2 r d2 -> is_derive f3 r d3 -> is_derive f4 r d4 ->
+    is_derive (fun t => f1 t * f2 t * f3 t * f4 t) r
+      (d1 * f2 r * f3 r * f4 r + f1 r * d2 * f3 r * f4 r + f1 r * f2 r * d3 * f4 r + f1 r * f2 r * f3 r * d4).
+  Proof.
+    intros D1 D2 D3 D4. auto_derive.
+    - repeat split; try exact I; eexists; eassumption.
+    - change (Derive (fun x0 : R => f1 x0) r) with (Derive f1 r). change (Derive (fun x0 : R => f2 x0) r) with (Derive f2 r).
+      change (Derive (fun x0 : R => f3 x0) r) with (Derive f3 r). change (Derive (fun x0 : R => f4 x0) r) with (Derive f4 r).
+      rewrite (is_derive_unique _ _ _ D1), (is_derive_unique _ _ _ D2), (is_derive_unique _ _ _ D3), (is_derive_unique _ _ _ D4). ring.
+  Qed.
+  Lemma is_derive_lin (g : R -> R) c r d : is_derive g (c * r) d -> is_derive (fun t => g (c * t)) r (c * d).
+  Proof.
+    intros D. auto_derive.
+    - repeat split; try exact I; eexists; eassumption.
+    - change (Derive (fun x0 : R => g x0) (c * r)) with (Derive g (c * r)). rewrite (is_derive_unique _ _ _ D). ring.
+  Qed.
+
+  Lemma H_derive i j k r : 0 < r ->
+    is_derive (H i j k) r
+      (IZR (k + Z.of_nat i - Z.of_nat j - 2) * F i (S j) (k - 1) r - 2 * p * F i (S j) (k + 1) r
+       + 2 * x * F (S i) (S j) k r + 2 * y * F i j k r).
+  Proof.
+    intros Hr. unfold H.
+    assert (0 < 2 * (a * A) * r) as Hz1 by (apply Rmult_lt_0_compat; lra).
+    assert (0 < 2 * (b * B) * r) as Hz2 by (apply Rmult_lt_0_compat; lra).
+    pose proof (powerRZ_derive k r Hr) as D1.
+    pose proof (env_derive r) as D2.
+    pose proof (is_derive_lin (M i) _ _ _ (M_derive_up i _ Hz1)) as D3.
+    pose proof (is_derive_lin (M (S j)) _ _ _ (M_derive_down j _ Hz2)) as D4.
+    pose proof (is_derive_mult4 _ _ _ _ _ _ _ _ _ D1 D2 D3 D4) as D. cbv beta in D.
+    eapply is_derive_ext_val; [exact D|]. clear D D1 D2 D3 D4.
+    unfold F. fold x y.
+    assert (r <> 0) as Hr0 by lra.
+    replace (powerRZ r (k + 1)) with (r * r * powerRZ r (k - 1)).
+    2:{ replace (k + 1)%Z with (1 + (1 + (k - 1)))%Z by lia. rewrite !powerRZ_add by assumption. rewrite powerRZ_1. ring. }
+    replace (powerRZ r k) with (r * powerRZ r (k - 1)).
+    2:{ replace k with (1 + (k - 1))%Z at 2 by lia. rewrite powerRZ_add by assumption. rewrite powerRZ_1. reflexivity. }
+    rewrite !minus_IZR, plus_IZR, <- !INR_IZR_INZ. unfold x, y, p. match goal with |- @eq _ ?l ?r => change (@eq R l r) end. field.
+    repeat split; try assumption; intros E; first [rewrite E in Hx | rewrite E in Hy]; lra.
+  Qed.
+
+  Lemma F_ex_derive i j k r : 0 < r -> ex_derive (F i j k) r.
+  Proof.
+    intros Hr. unfold F.
+    assert (0 < 2 * (a * A) * r) as Hz1 by (apply Rmult_lt_0_compat; lra).
+    assert (0 < 2 * (b * B) * r) as Hz2 by (apply Rmult_lt_0_compat; lra).
+    eexists. apply (is_derive_mult4 _ _ _ _ _ _ _ _ _ (powerRZ_derive k r Hr) (env_derive r)
+                      (is_derive_lin (M i) _ _ _ (M_derive_up i _ Hz1)) (is_derive_lin (M j) _ _ _ (M_derive_up j _ Hz2))).
+  Qed.
+
+  Definition G (i j : nat) (k : Z) (r : R) : R :=
+    IZR (k + Z.of_nat i - Z.of_nat j - 2) * F i (S j) (k - 1) r - 2 * p * F i (S j) (k + 1) r
+    + 2 * x * F (S i) (S j) k r + 2 * y * F i j k r.
+
+  Lemma G_continuous i j k r : 0 < r -> continuous (G i j k) r.
+  Proof.
+    intros Hr. apply (ex_derive_continuous (K := R_AbsRing) (V := R_NormedModule)). unfold G.
+    pose proof (F_ex_derive i (S j) (k - 1) r Hr). pose proof (F_ex_derive i (S j) (k + 1) r Hr).
+    pose proof (F_ex_derive (S i) (S j) k r Hr). pose proof (F_ex_derive i j k r Hr).
+    auto_derive. repeat split; try exact I; assumption.
+  Qed.
+
+  Lemma is_RInt_gen_lin4 (f1 f2 f3 f4 : R -> R) (c1 c2 c3 c4 l1 l2 l3 l4 : R) :
+    is_RInt_gen f1 Fa (Rbar_locally p_infty) l1 -> is_RInt_gen f2 Fa (Rbar_locally p_infty) l2 ->
+    is_RInt_gen f3 Fa (Rbar_locally p_infty) l3 -> is_RInt_gen f4 Fa (Rbar_locally p_infty) l4 ->
+    is_RInt_gen (fun r => c1 * f1 r - c2 * f2 r + c3 * f3 r + c4 * f4 r) Fa (Rbar_locally p_infty) (c1 * l1 - c2 * l2 + c3 * l3 + c4 * l4).
+  Proof.
+    intros I1 I2 I3 I4.
+    apply (is_RInt_gen_plus (V := R_CompleteNormedModule) (fun r => c1 * f1 r - c2 * f2 r + c3 * f3 r) (fun r => c4 * f4 r)).
+    - apply (is_RInt_gen_plus (V := R_CompleteNormedModule) (fun r => c1 * f1 r - c2 * f2 r) (fun r => c3 * f3 r)).
+      + apply (is_RInt_gen_minus (V := R_CompleteNormedModule) (fun r => c1 * f1 r) (fun r => c2 * f2 r)).
+        * apply (is_RInt_gen_scal (V := R_CompleteNormedModule) f1 c1 l1 I1).
+        * apply (is_RInt_gen_scal (V := R_CompleteNormedModule) f2 c2 l2 I2).
+      + apply (is_RInt_gen_scal (V := R_CompleteNormedModule) f3 c3 l3 I3).
+    - apply (is_RInt_gen_scal (V := R_CompleteNormedModule) f4 c4 l4 I4).
+  Qed.
+
+  (* the integration by parts *)
+  Theorem T_rec_i i j k :
+    Fa (fun u => 0 < u) ->
+    filterlim (H i j k) Fa (locally 0) -> filterlim (H i j k) (Rbar_locally p_infty) (locally 0) ->
+    2 * x * T (S i) (S j) k
+    = IZR (2 + Z.of_nat j - Z.of_nat i - k) * T i (S j) (k - 1) + 2 * p * T i (S j) (k + 1) - 2 * y * T i j k.
+  Proof.
+    intros HFpos L0 Linf.
+    assert (filter_prod Fa (Rbar_locally p_infty) (fun ab => forall r, Rmin (fst ab) (snd ab) <= r <= Rmax (fst ab) (snd ab) -> 0 < r)) as BP.
+    { exists (fun u => 0 < u) (fun v => 0 < v); [exact HFpos | exists 0; intros v Hv; exact Hv |].
+      intros u v Hu Hv r. cbn [fst snd]. intros [Hr _]. unfold Rmin in Hr. destruct (Rle_dec u v); lra. }
+    assert (forall r, 0 < r -> Derive (H i j k) r = G i j k r) as DG.
+    { intros r Hr. apply is_derive_unique. apply H_derive. exact Hr. }
+    (* (1) the integral of H' is the difference of the boundary values: 0 *)
+    assert (is_RInt_gen (Derive (H i j k)) Fa (Rbar_locally p_infty) (0 - 0)) as I1.
+    { apply (is_RInt_gen_Derive (H i j k) 0 0); [| | exact L0 | exact Linf].
+      - revert BP. apply filter_imp. intros ab Hab r Hr. eexists. apply H_derive. apply Hab. exact Hr.
+      - revert BP. apply filter_imp. intros ab Hab r Hr. pose proof (Hab r Hr) as Hr0.
+        apply (continuous_ext_loc (Derive (H i j k)) (G i j k)); [| apply G_continuous; exact Hr0].
+        exists (mkposreal r Hr0). intros t Ht. symmetry. apply DG.
+        unfold ball in Ht; cbn in Ht. unfold AbsRing_ball, abs, minus, plus, opp in Ht. cbn in Ht.
+        apply Rabs_def2 in Ht. lra. }
+    (* (2) H' = G on (0, inf), and G integrates to the combination of the T's *)
+    assert (is_RInt_gen (G i j k) Fa (Rbar_locally p_infty) (0 - 0)) as I2.
+    { apply (is_RInt_gen_ext (Derive (H i j k))); [|exact I1].
+      pose proof between_pos as BP2. revert BP2. apply filter_imp. intros ab Hab r Hr. apply DG. apply Hab. exact Hr. }
+    pose proof (is_RInt_gen_lin4 _ _ _ _ (IZR (k + Z.of_nat i - Z.of_nat j - 2)) (2 * p) (2 * x) (2 * y) _ _ _ _
+                  (HT i (S j) (k - 1)) (HT i (S j) (k + 1)) (HT (S i) (S j) k) (HT i j k)) as I3.
+    change (is_RInt_gen (G i j k) Fa (Rbar_locally p_infty)
+              (IZR (k + Z.of_nat i - Z.of_nat j - 2) * T i (S j) (k - 1) - 2 * p * T i (S j) (k + 1) + 2 * x * T (S i) (S j) k + 2 * y * T i j k)) in I3.
+    pose proof (is_RInt_gen_unique _ _ I2) as U2. pose proof (is_RInt_gen_unique _ _ I3) as U3.
+    rewrite U2 in U3. rewrite !minus_IZR, !plus_IZR in *. lra.
+  Qed.
+
+  (* the two recurrences in the form RadialTable.case_value takes them (indices in Z, T(i, j, k) with i = l1, j = l2, k = N) *)
+  Definition Tz (i j k : Z) : R := T (Z.to_nat i) (Z.to_nat j) k.
+
+  Corollary SRj_from_integrals : forall j k, (2 <= j)%Z ->
+    Tz 0 j k = Tz 0 (j - 2) k - IZR (2 * j - 1) / (2 * y) * Tz 0 (j - 1) (k - 1).
+  Proof.
+    intros j k Hj. unfold Tz.
+    replace (Z.to_nat j) with (S (S (Z.to_nat (j - 2)))) by lia.
+    replace (Z.to_nat (j - 1)) with (S (Z.to_nat (j - 2))) by lia.
+    rewrite T_rec_j. unfold y. f_equal. f_equal. f_equal.
+    rewrite INR_IZR_INZ, Z2Nat.id by lia. rewrite <- mult_IZR, <- plus_IZR. f_equal. lia.
+  Qed.
+
+  Corollary SRi_from_integrals : forall i j k, (1 <= i)%Z -> (1 <= j)%Z ->
+    Fa (fun u => 0 < u) ->
+    filterlim (H (Z.to_nat (i - 1)) (Z.to_nat (j - 1)) k) Fa (locally 0) ->
+    filterlim (H (Z.to_nat (i - 1)) (Z.to_nat (j - 1)) k) (Rbar_locally p_infty) (locally 0) ->
+    Tz i j k = IZR (2 + j - i - k) / (2 * x) * Tz (i - 1) j (k - 1) - y / x * Tz (i - 1) (j - 1) k + p / x * Tz (i - 1) j (k + 1).
+  Proof.
+    intros i j k Hi Hj HF L0 Li. unfold Tz.
+    pose proof (T_rec_i (Z.to_nat (i - 1)) (Z.to_nat (j - 1)) k HF L0 Li) as E.
+    replace (S (Z.to_nat (i - 1))) with (Z.to_nat i) in E by lia.
+    replace (S (Z.to_nat (j - 1))) with (Z.to_nat j) in E by lia.
+    rewrite !Z2Nat.id in E by lia.
+    replace (2 + (j - 1) - (i - 1) - k)%Z with (2 + j - i - k)%Z in E by lia.
+    assert (x <> 0) as Hx0 by (unfold x; lra).
+    apply Rmult_eq_reg_l with (r := 2 * x); [|lra]. rewrite E. field. exact Hx0.
   Qed.
 End RadialRec.
